@@ -584,7 +584,6 @@ func TestC10BinaryRace(t *testing.T) {
 	os.Setenv("VERIF_BINARY_RACE", "1")
 	p := startPool(t)
 	defer p.stop()
-	defer os.Remove(binPath)
 	rapid.Check(t, func(rt *rapid.T) {
 		nHosts := rapid.IntRange(1, 3).Draw(rt, "hosts")
 		nClients := rapid.IntRange(2, 5).Draw(rt, "clients")
@@ -698,7 +697,6 @@ func TestC10BinaryBurst(t *testing.T) {
 	rec.Rule("socket transports, burst: the `vipnode pool` binary serves one host over WebSocket and 2-40 light clients over HTTP; all clients send vipnode_peer at the same moment and the host acknowledges the resulting whitelist calls only when all have arrived (or after 1.5 s), so up to 40 reverse calls are outstanding on one connection; oracle: every one-at-a-time order hands the host to every client, so a client that is not given the host although the host acknowledged its whitelist call within 4 s of the request is a violation (one-sided timing: a late acknowledgement proves nothing); distinct by the number of clients")
 	p := startPool(t)
 	defer p.stop()
-	defer os.Remove(binPath)
 	idBase := 100
 	rapid.Check(t, func(rt *rapid.T) {
 		k := rapid.IntRange(2, 40).Draw(rt, "clients")
